@@ -138,6 +138,29 @@ def xparse(text):
     return ast.parse(text, mode='eval').body
 
 
+def assigned_value(stmt, name):
+    """Expression bound to local *name* by Assign statement stmt: `name = e`, `a = name = e`, or the
+    matching element of a tuple assignment `a, name = x, e` (nested tuples included); else None."""
+    if not isinstance(stmt, ast.Assign):
+        return None
+
+    def match(t, v):
+        if isinstance(t, ast.Name):
+            return v if t.id == name else None
+        if isinstance(t, (ast.Tuple, ast.List)) and isinstance(v, (ast.Tuple, ast.List)) and \
+                len(t.elts) == len(v.elts) and not any(isinstance(e, ast.Starred) for e in t.elts + v.elts):
+            for te, ve in zip(t.elts, v.elts):
+                r = match(te, ve)
+                if r is not None:
+                    return r
+        return None
+    for t in stmt.targets:
+        r = match(t, stmt.value)
+        if r is not None:
+            return r
+    return None
+
+
 class Ctx:
     """CFG + reaching definitions of one function with alias-resolving access paths."""
 
@@ -183,10 +206,10 @@ class Ctx:
         if len(ds) != 1:
             return None, None
         d = next(iter(ds))
-        if d.kind == 'stmt' and isinstance(d.ast, ast.Assign):
-            for t in d.ast.targets:
-                if isinstance(t, ast.Name) and t.id == name:
-                    return d.ast.value, d
+        if d.kind == 'stmt':
+            v = assigned_value(d.ast, name)
+            if v is not None:
+                return v, d
         return None, None
 
     def resolve(self, expr, at=None, depth=0):
@@ -803,12 +826,12 @@ def _values_under(cx, e, at, mode_name, direction, stop, depth=0):
         ds = cx.rd.defs(at, e.id)
         vals = set()
         for d in ds:
-            if not (d.kind == 'stmt' and isinstance(d.ast, ast.Assign) and len(d.ast.targets) == 1 and
-                    isinstance(d.ast.targets[0], ast.Name)):
+            dv = assigned_value(d.ast, e.id) if d.kind == 'stmt' else None
+            if dv is None:
                 return None
             if not _branch_feasible(cx, d, mode_name, direction, stop):
                 continue
-            v = _values_under(cx, d.ast.value, d, mode_name, direction, stop, depth + 1)
+            v = _values_under(cx, dv, d, mode_name, direction, stop, depth + 1)
             if v is None:
                 return None
             vals |= v
@@ -3171,6 +3194,30 @@ selftest(
          "                irange = resolved.as_array(copy=True)"),
     Twin('twin-sol-indices-as-array-subscript', TJ, "                        sol_inds = sol_inds[indices.flat()]",
          "                        sel = indices.as_array()\n                        sol_inds = sol_inds[sel]"),
+    Twin('twin-seeds-tuple-assignment', TJ,
+         "                                fwd_seeds = itermeta['seed_vars']\n                                rev_seeds = None\n"
+         "                            else:\n                                fwd_seeds = None\n"
+         "                                rev_seeds = itermeta['seed_vars']",
+         "                                fwd_seeds, rev_seeds = itermeta['seed_vars'], None\n"
+         "                            else:\n"
+         "                                fwd_seeds, rev_seeds = None, itermeta['seed_vars']"),
+    Twin('twin-loop-header-unpack-and-inverted-cache-guard', TJ,
+         "                    for key, idx_info in self.idx_iter_dict[mode].items():\n"
+         "                        imeta, idx_iter = idx_info\n",
+         "                    for key, (imeta, idx_iter) in self.idx_iter_dict[mode].items():\n",
+         also=[(TJ, "                                    if (cache_key is not None and not has_lin_cons and\n"
+                "                                            self.mode == mode):\n"
+                "                                        self._restore_linear_solution(cache_key, mode)\n"
+                "                                        model._solve_linear(mode)\n"
+                "                                        self._save_linear_solution(cache_key, mode)\n"
+                "                                    else:\n"
+                "                                        model._solve_linear(mode)\n",
+                "                                    if cache_key is None or has_lin_cons or self.mode != mode:\n"
+                "                                        model._solve_linear(mode)\n"
+                "                                    else:\n"
+                "                                        self._restore_linear_solution(cache_key, mode)\n"
+                "                                        model._solve_linear(mode)\n"
+                "                                        self._save_linear_solution(cache_key, mode)\n")]),
     Twin('twin-solve-in-physical-vector-names', DIRECT,
          "            with system._unscaled_context(outputs=[d_outputs], residuals=[d_residuals]):\n"
          "                if isinstance(system._assembled_jac._dr_do_mtx, DenseMatrix):",
